@@ -198,6 +198,7 @@ def do_check(unit, check, cfile, sdir, known, verbose=False):
             cmd = ['cbmc', os.path.join(unit['dir'], check['source']), '--cpp11', '--function', check['entry'],
                    '-I', os.path.join(VERIF, 'stubs'), '-I', os.path.join(REPO, 'lib'), '-I', unit['dir'],
                    '-I', os.path.join(VERIF, 'include'), '-I', sdir] + defs
+            cmd += ['--drop-unused-functions']
             cmd += check.get('cbmc_flags', ['--bounds-check', '--pointer-check', '--signed-overflow-check',
                                             '--div-by-zero-check'])
             if 'unwind' in check:
